@@ -6,6 +6,7 @@ From Coq Require Import NArith List Bool.
 From Coq Require Import Lia.
 From V Require Import Model.Transfer Proofs.TransferProofs Proofs.TransferProofs2.
 From V Require Import Proofs.TransferProofsX1 Proofs.TransferProofsX2 Proofs.TransferProofsX3 Proofs.TransferProofsX4.
+From V Require Import Proofs.TransferProofsX5.
 From V Require Import Model.TransferDims Proofs.TransferProofsD.
 Import ListNotations.
 Open Scope N_scope.
@@ -53,7 +54,8 @@ Theorem import_refused_registry_unchanged : forall m b t t' e, import_ m b t = (
 Proof. exact import_refused_registry. Qed.
 Print Assumptions import_refused_registry_unchanged.
 
-(* ... and the datastore is either untouched or has lost artifacts of datasets of the file (only in the copying modes) *)
+(* (kept from before 2da36a1; import_refused_unchanged below is the full statement) the datastore is either untouched or has
+   lost artifacts of datasets of the file *)
 Theorem import_refused_stored_only_lost : forall m b t t' e, import_ m b t = (t', Err e) ->
   stored t' = stored t \/ (m = Copy /\ stored t' = lose (bundle_ids b) (stored t)).
 Proof. exact import_refused_stored. Qed.
@@ -70,23 +72,49 @@ Theorem import_idempotent_or_refused_partial : forall b t t' e, import_ Direct b
 Proof. exact import_refused_direct. Qed.
 Print Assumptions import_idempotent_or_refused_partial.
 
-(* import_idempotent_or_refused is FALSE for the copying modes: importing the same export twice is refused the second time
-   (IntegrityError) and destroys the artifact stored by the first import *)
+(* refused import_, EVERY mode (after /repo 2da36a1: FileDatastore refuses the ingest of a dataset it already holds before any
+   file is transferred): dimension records, dataset rows, datastore records -- hence every stored content --, TAGGED
+   memberships and validity ranges are exactly as before.  No exception for the copying modes any more. *)
+Theorem import_refused_unchanged : forall m b t t' e, import_ m b t = (t', Err e) -> same_data t t'.
+Proof. exact import_refused_same. Qed.
+Print Assumptions import_refused_unchanged.
+
+Theorem export_import_refused_unchanged : forall m ids cs src t t' e, exim m ids cs src t = (t', Err e) -> same_data t t'.
+Proof. exact exim_refused_same. Qed.
+Print Assumptions export_import_refused_unchanged.
+
+(* import_idempotent_or_refused at FULL strength: a file with at least one dataset that was accepted once (any mode) is
+   refused when imported again (any mode), and the refusal neither duplicates nor alters anything already there *)
+Theorem import_idempotent_or_refused : forall m m' b t t', import_ m b t = (t', Ok) -> b_dsets b <> [] ->
+  exists t'' e, import_ m' b t' = (t'', Err e) /\ same_data t' t''.
+Proof. exact import_idem_or_refused. Qed.
+Print Assumptions import_idempotent_or_refused.
+
+(* the behaviour BEFORE 2da36a1 (model variant fixed = false: the INSERT fails after every file was copied over the stored
+   artifact and the rollback deletes it) violates it: importing the same export twice with copy destroys the content
+   stored by the first import.  Reverting the commit makes the implementation follow this variant again. *)
 Definition w_src : state :=
   St [(100, 1); (0, 1)] [(0, 0)] [(0, RUN)] [] [D 1 0 0 0] [(1, (Some 11, true))] [] [].
-Theorem import_idempotent_or_refused_refuted :
+Theorem import_idempotent_or_refused_refuted_without_fix :
   exists src ids n v,
-    let '(t1, o1) := exim Copy ids [] src empty in
-    let '(t2, o2) := exim Copy ids [] src t1 in
+    let '(t1, o1) := exim_v false Copy ids [] src empty in
+    let '(t2, o2) := exim_v false Copy ids [] src t1 in
     o1 = Ok /\ content_of n t1 = Some v /\ o2 = Err SqlError /\ content_of n t2 = None /\ is_stored n t2 = true.
 Proof. exists w_src, [1], 1, 11. vm_compute. repeat split. Qed.
-Print Assumptions import_idempotent_or_refused_refuted.
+Print Assumptions import_idempotent_or_refused_refuted_without_fix.
+
+(* ... and on the code as it is the same two imports leave the content readable *)
+Example reimport_keeps_content :
+  let '(t1, o1) := exim Copy [1] [] w_src empty in
+  let '(t2, o2) := exim Copy [1] [] w_src t1 in
+  o1 = Ok /\ o2 = Err Conflict /\ t2 = t1 /\ content_of 1 t2 = Some 11.
+Proof. vm_compute. repeat split. Qed.
 
 (* a refused import may already have REPLACED a chain definition of the target (register() is not transactional) *)
 Theorem refused_import_replaced_chain_refuted :
   exists src t ids cs,
     let '(t', o) := exim Copy ids cs src t in
-    o = Err SqlError /\ lookup 4 (chains t) = Some [5] /\ lookup 4 (chains t') = Some [1].
+    o = Err Conflict /\ lookup 4 (chains t) = Some [5] /\ lookup 4 (chains t') = Some [1].
 Proof.
   exists (St [(100, 1); (0, 1)] [(0, 0)] [(0, RUN); (1, RUN); (4, CHAINED)] [(4, [1])] [D 1 0 0 0] [(1, (Some 11, true))] [] []),
          (St [(100, 1); (0, 1)] [(0, 0)] [(0, RUN); (5, RUN); (4, CHAINED)] [(4, [5])] [D 1 0 0 0] [(1, (Some 11, true))] [] []),
